@@ -468,7 +468,17 @@ def oracle_admission(cfg, ops, trace):
         if decide is not None:
             k, w, before = decide
             order = [x for x, _, _ in before.prob]
-            clean = all(x in est for x in order) and k in est and \
+            # estimates are needed only for the residents the victim loop looks at
+            need, vw0, vf0 = [], 0, 0
+            if k in est:
+                for x in order:
+                    if vw0 >= w or x not in est or est[k] < vf0:
+                        break
+                    need.append(x)
+                    vw0 += before.map[x]["w"]
+                    vf0 += est[x]
+            examined_all = k in est and (vw0 >= w or est[k] < vf0 or len(need) == len(order))
+            clean = examined_all and \
                 (unsync or all(before.map.get(x, {}).get("adm") for x in order))
             no_expiry = cfg["ttl"] is None and cfg["tti"] is None and (unsync or before.va is None)
             if clean and no_expiry and before.ws <= cap and before.ws + w > cap and w <= cap:
@@ -507,6 +517,8 @@ def oracle_only_get_records(cfg, ops, trace):
     """Only get calls (hit or miss, each at most once) are ever recorded in the popularity sketch."""
     import re as _re
     prev = None
+    pstate = None
+    recorded = 0
     for i, toks, out, state, now in steps(cfg, trace):
         if failed(out):
             return None
@@ -519,6 +531,12 @@ def oracle_only_get_records(cfg, ops, trace):
         if prev is not None and cur is not None:
             psk, prq = prev
             if cfg["kind"] == "unsync":
+                if o == "G" and s.skon and getattr(pstate, "skon", 0) and cur == psk and recorded < 15:
+                    # fewer than 15 lookups recorded since the table was enabled / last aged: no counter can be
+                    # saturated, so a recorded lookup must change the table
+                    return f"op {i} `{' '.join(toks)}` was not recorded in the enabled popularity sketch"
+                if o == "G" and cur != psk:
+                    recorded = 8 if cur[0] < psk[0] else recorded + 1     # (after an aging step counters are <= 7)
                 if o != "G" and cur != psk:
                     return f"op {i} `{' '.join(toks)}` changed the popularity sketch (size {psk[0]} -> {cur[0]}) although it is not a get"
                 if o == "G" and cur[0] > psk[0] + 1:
@@ -531,5 +549,8 @@ def oracle_only_get_records(cfg, ops, trace):
                 if cur != psk and prq == 0 and o != "G":
                     return f"op {i} `{' '.join(toks)}`: the sketch changed although no recorded read was pending"
         if cur is not None:
+            if prev is not None and cur[0] == 0 and prev[0][0] != 0:
+                recorded = 0
             prev = (cur, getattr(s, "rq", 0))
+            pstate = s
     return None
